@@ -122,20 +122,19 @@ def known_signature(h, ev):
     A deviation in a history without any negative component never matches."""
     return has_negative(h)
 
-def validate(res, wd, name, hists, lines, kf, allow_known, tolerant=False, depth=0):
-    """concatenate the histories (reset between them) and let TLC judge them against TupleSetAbs.
-    allow_known: the family inserts negative keys, deviations matching the listed finding's signature are KNOWN-FINDING.
-    tolerant: the histories are sequential, so an inexplicable insert result is reported and the trace continues."""
+def validate(res, wd, name, hists, kf, depth=0):
+    """hists: histories tagged with job (driver line), fam, allow_known (the family inserts negative keys: deviations matching the
+    listed finding's signature are KNOWN-FINDING) and tolerant (sequential history: an inexplicable insert result is reported and
+    the trace continues).  They are concatenated (reset between them) and judged by TLC against TupleSetAbs in one run."""
     events = []; owner = []
     for hi, h in enumerate(hists):
-        events.append({"e": "reset"}); owner.append(hi)
+        events.append({"e": "reset", "tol": bool(h["tolerant"])}); owner.append(hi)
         for e in h["events"]:
             events.append(e); owner.append(hi)
     if not events:
         return
     acc, consumed, r = tracecheck.validate("TupleSetAbsTrace", events, wd, name, timeout=2400, heap="12g",
-                                           constants="CONSTANT Clients = {1, 2, 3, 4, 5, 6, 7, 8}\nCONSTANT Tolerant = %s"
-                                           % ("TRUE" if tolerant else "FALSE"))
+                                           constants="CONSTANT Clients = {1, 2, 3, 4, 5, 6, 7, 8}")
     res.count("trace_events", len(events) if acc else consumed)
     if acc is None:
         res.infra_errors.append("trace validation %s failed to run: %s" % (name, str(r["error"])[-800:])); return
@@ -158,10 +157,10 @@ def validate(res, wd, name, hists, lines, kf, allow_known, tolerant=False, depth
             res.count("observations_outside_property")
             if nobs < 3:
                 print("OBSERVATION property=C27 (outside the property statement, no verdict) %s_bound(%s) answered %s, the ordered-set "
-                      "model says %s; job %r" % (ev["e"], ev["t"], ev["r"], exp, lines[h["line"]]), flush=True)
-                res.cov.setdefault("observation_samples", []).append({"query": ev, "expected": exp, "job": lines[h["line"]]})
+                      "model says %s; job %r" % (ev["e"], ev["t"], ev["r"], exp, h["job"]), flush=True)
+                res.cov.setdefault("observation_samples", []).append({"query": ev, "expected": exp, "job": h["job"]})
             continue
-        if allow_known and listed and known_signature(h, ev):
+        if h["allow_known"] and listed and known_signature(h, ev):
             known_hits.setdefault(hi, []).append((ev, exp))
             continue
         if hi in bad_hist:
@@ -169,23 +168,22 @@ def validate(res, wd, name, hists, lines, kf, allow_known, tolerant=False, depth
         bad_hist.add(hi)
         calls = [e for e in h["events"] if e["e"] in ("call", "ret")]
         res.violations.append(("history of the real Trie rejected by spec/TupleSetAbs.tla at event %s: the set model says %s; job %r "
-                               "schedule %r; insert history %s" % (ev, exp, lines[h["line"]], h["label"], calls[:40]),
-                               _save(wd, "rejected_%s_%d" % (name, hi), [lines[h["line"]]])))
+                               "schedule %r; insert history %s" % (ev, exp, h["job"], h["label"], calls[:40]),
+                               _save(wd, "rejected_%s_%d" % (name, hi), [h["job"]])))
     nvalid = (owner[blocked] if blocked is not None else len(hists))
     res.cov["traces_validated_against_impl"] += nvalid - len([x for x in bad_hist if x < nvalid])
     if known_hits:
         res.count("histories_with_known_finding", len(known_hits))
         hi = sorted(known_hits)[0]; ev, exp = known_hits[hi][0]
         if not any(k.startswith(KNOWN_ID) for k in res.known):
-            res.known.append(known.describe(kf, PID, KNOWN_ID) + " -- e.g. job %r: %s, the set model says %s" % (
-                lines[hists[hi]["line"]], ev, exp))
+            res.known.append(known.describe(kf, PID, KNOWN_ID) + " -- e.g. job %r: %s, the set model says %s" % (hists[hi]["job"], ev, exp))
         kinds = res.cov.setdefault("known_finding_event_kinds", {})
         for v in known_hits.values():
             for ev, _ in v:
                 kinds[ev["e"]] = kinds.get(ev["e"], 0) + 1
     if blocked is not None and owner[blocked] + 1 < len(hists) and depth < 40:
         # the histories after the rejected one have not been judged yet
-        validate(res, wd, name + "_", hists[owner[blocked] + 1:], lines, kf, allow_known, tolerant, depth + 1)
+        validate(res, wd, name + "_", hists[owner[blocked] + 1:], kf, depth + 1)
 
 def report_exec_problems(res, wd, hists, crash, lines, what):
     for h in hists:
@@ -379,7 +377,9 @@ def run(tier, replay_path=None):
     phases = res.cov.setdefault("phase_seconds", {})
     t0 = time.time()
     # S
-    cfgs = ["MC_BrieQ22.cfg", "MC_BrieQ31.cfg", "MC_BrieL.cfg"] + ([] if q else ["MC_BrieT32.cfg", "MC_BrieT22.cfg"])
+    cfgs = ["MC_BrieQ22.cfg", "MC_BrieQ31.cfg", "MC_BrieL.cfg"] + ([] if q else ["MC_BrieT31.cfg", "MC_BrieT32.cfg", "MC_BrieT22.cfg"])
+    if os.environ.get("VERIF_SKIP_MC"):      # developer aid for mutation experiments on a scratch copy (the model does not
+        cfgs = []                            # depend on the repository); MANIFEST commands never set it
     for cfg in cfgs:
         r, viol = model_check(res, wd, cfg, heap="24g" if cfg in ("MC_BrieT22.cfg", "MC_BrieT32.cfg") else "8g", timeout=3000,
                               vacuity=cfg != "MC_BrieL.cfg")
@@ -387,10 +387,11 @@ def run(tier, replay_path=None):
             path = os.path.join(wd, "tlc_%s.out" % cfg); open(path, "w").write(r["out"])
             res.violations.append((viol, path))
     phases["S model checking"] = round(time.time() - t0, 1); t0 = time.time()
-    # R (+ its histories go through T)
+    # R (its executions are histories of an arity-1 tuple set as well: they go through T)
+    allh = []
     rh, rlines = replay(res, wd, "MC_BrieRq.cfg" if q else "MC_BrieR.cfg", drv, max_walks=500 if q else 5000)
-    if rh:
-        validate(res, wd, "MCT_BrieReplay", rh, rlines, kf, allow_known=False)
+    for h in rh:
+        h.update(job=rlines[h["line"]], fam="replay", allow_known=False, tolerant=False); allh.append(h)
     phases["R replay"] = round(time.time() - t0, 1)
     # T
     rng = random.Random(seed() * 7919 + 27)
@@ -400,23 +401,27 @@ def run(tier, replay_path=None):
             continue
         t0 = time.time()
         hists, crash = run_driver(drv, lines, timeout=2400)
-        phases["T driver " + fname] = round(time.time() - t0, 1); t0 = time.time()
+        phases["T driver " + fname] = round(time.time() - t0, 1)
         res.count("histories_" + fname, len(hists))
         report_exec_problems(res, wd, hists, crash, lines, "Trie")
         for h in hists:
+            # the coop negative family is single-threaded (the defect is sequential): inexplicable insert results are tolerated
+            h.update(job=lines[h["line"]], fam=fname, allow_known=fname in ("negative", "stress_negative"), tolerant=fname == "negative")
+            allh.append(h)
             if h.get("obs"):
                 if res.cov.get("observations_outside_property_aborts", 0) < 2:
                     print("OBSERVATION property=C27 (outside the property statement, no verdict) %s; job %r; last answers %s"
-                          % (h["obs"], lines[h["line"]], [e for e in h["events"] if e["e"] in OUTSIDE][-2:]), flush=True)
+                          % (h["obs"], h["job"], [e for e in h["events"] if e["e"] in OUTSIDE][-2:]), flush=True)
                 res.count("observations_outside_property_aborts")
-        neg = fname in ("negative", "stress_negative")
-        # the coop negative family is single-threaded (the defect is sequential): inexplicable insert results are tolerated there
-        validate(res, wd, "MCT_Brie_" + fname, hists, lines, kf, allow_known=neg, tolerant=(fname == "negative"))
-        phases["T tlc " + fname] = round(time.time() - t0, 1)
         if hists:
             h = hists[len(hists) // 2]
-            res.sample({"family": fname, "job": lines[h["line"]], "schedule": h["label"],
+            res.sample({"family": fname, "job": h["job"], "schedule": h["label"],
                         "events": [json.dumps(e) for e in h["events"][:14]]}, limit=12)
+    t0 = time.time()
+    # strict histories first; the (few) concurrent negative-key histories last, because a rejected insert result stops a run
+    allh.sort(key=lambda h: h["fam"] == "stress_negative")
+    validate(res, wd, "MCT_Brie", allh, kf)
+    phases["T tlc"] = round(time.time() - t0, 1)
     res.sample({"spec": "BrieImpl.tla / TupleSetAbs.tla", "configs": cfgs})
     return finish(res, "model_checking", assumptions=[
         "the cooperative scheduler serialises threads at the hook points (one per atomic access of SparseArray/SparseBitMap/Trie::insert): "
